@@ -123,8 +123,9 @@ def c06_b(ctx: Ctx):
             else:
                 out.append(ctx.viol(R, f, f.node, f"{o} has no branch and operator.{name} does not exist: AttributeError for filters using {o}", construct=k))
     # every return is preceded by the scan over the index keys
-    cfg = ctx.cfg(f)
     ix = f.params[0]
+    f = ctx.desugared(f)        # `return {i for v in index if op(v, a) for i in index[v]}` is the scanning loop it abbreviates
+    cfg = ctx.cfg(f)
     scans = {n.id for n in cfg.stmt_nodes() if isinstance(n.ast, ast.For) and canon(n.ast.iter) in (ix, ix + ".keys()", f"list({ix})", ix + ".items()")}
     if not scans:
         out.append(ctx.inc(R, f, f.node, "no loop over the index keys"))
